@@ -54,6 +54,7 @@ A_OPS = {
     'start-all': ('start', dict(waiting=True)),
     'restart-glob': ('restart', dict(name='*', waiting=True)),
     'check': ('__check__', {}),
+    'check-long': ('__check_long__', {}),
     'quit': ('quit', dict(waiting=True)),
 }
 B_OPS = {
@@ -89,7 +90,8 @@ def base_spec(rnd=None):
                  'hooks': {'after_start': ['raise', False]}},
                 {'name': 'e', 'numprocesses': 1, 'autostart': False, 'max_retry': 2, 'graceful_timeout': 0.1,
                  'cmd': 'w_e'},
-                {'name': 'p', 'numprocesses': 1, 'graceful_timeout': 0.1}],
+                {'name': 'p', 'numprocesses': 1, 'graceful_timeout': 0.1},
+                {'name': 'L', 'numprocesses': 4, 'graceful_timeout': 0.1, 'warmup_delay': 2.5}],
             'arb': {'warmup_delay': 0.0 if rnd is None else rnd.choice([0, 0.1])}}
 
 
@@ -106,6 +108,8 @@ def plan(tier, seed):
     else:
         for i in range(400):
             out.append({'chain': i, 'seed': seed})
+    for i in range(6 if tier == 'quick' else 60):
+        out.append({'kind': 'circus-section', 'seed': seed, 'idx': i})
     return out
 
 
@@ -131,9 +135,21 @@ def worker_init():
 
         def entry(self, *a, **kw):
             w = sim.cur()
-            resp = orig(self, *a, **kw)        # raises ConflictError when refused: not counted
             if w is None or not hasattr(w, 'nest'):
-                return resp
+                return orig(self, *a, **kw)
+            # work started under an earlier exclusive operation that is still running although that operation has
+            # ended and given the slot back: this operation would run beside it
+            left = [x for x in w.nest['work'] if x[1] not in w.nest['tokens']]
+            w.nest['seq'] = w.nest.get('seq', 0) + 1
+            token = w.nest['seq']
+            w.nest['tokens'].append(token)      # owner of the work units started by the synchronous part
+            try:
+                resp = orig(self, *a, **kw)        # raises ConflictError when refused: not counted
+            except BaseException:
+                w.nest['tokens'].remove(token)
+                raise
+            if left and w.nest['n'] == 0:
+                w.nest['orphans'].append((name, sorted(set(x[0] for x in left))))
             w.nest['n'] += 1
             w.nest['max'] = max(w.nest['max'], w.nest['n'])
             w.nest['entered'] += 1
@@ -143,6 +159,8 @@ def worker_init():
 
             def fin(_f=None):
                 w.nest['n'] -= 1
+                if token in w.nest['tokens']:
+                    w.nest['tokens'].remove(token)
                 if name in w.nest['open']:
                     w.nest['open'].remove(name)
             if isinstance(resp, concurrent.Future) and not resp.done():
@@ -152,6 +170,32 @@ def worker_init():
             return resp
         entry.__name__ = name
         setattr(cls, name, entry)
+    def wrap_work(cls, name):
+        orig = getattr(cls, name, None)
+        if orig is None:
+            return
+
+        def work(self, *a, **kw):
+            w = sim.cur()
+            if w is None or not hasattr(w, 'nest') or not w.nest['tokens']:
+                return orig(self, *a, **kw)
+            ent = (name, w.nest['tokens'][-1])
+            w.nest['work'].append(ent)
+            resp = orig(self, *a, **kw)
+
+            def fin(_f=None):
+                if ent in w.nest['work']:
+                    w.nest['work'].remove(ent)
+            if isinstance(resp, concurrent.Future) and not resp.done():
+                concurrent.future_add_done_callback(resp, fin)
+            else:
+                fin()
+            return resp
+        work.__name__ = name
+        setattr(cls, name, work)
+    # coroutines that only ever run as part of an exclusive operation
+    for n in ('manage_processes', 'spawn_processes', '_start', '_stop', '_restart', '_reload'):
+        wrap_work(circus.watcher.Watcher, n)
     for n in SYNC_ENTRY['Watcher']:
         wrap(circus.watcher.Watcher, n)
     for n in SYNC_ENTRY['Arbiter']:
@@ -164,6 +208,9 @@ def run_case(spec):
     res = CaseResult()
     if 'chain' in spec:
         run_chain(spec, res)
+        return res
+    if spec.get('kind') == 'circus-section':
+        circus_section(spec, res)
         return res
     if 'B' in spec:                     # concrete (replay)
         h = spec['h']
@@ -179,7 +226,9 @@ def run_case(spec):
     res.hist['polls_of_A'][ref['polls']] += 1
     bnames = list(B_OPS) if rnd is None else rnd.sample(list(B_OPS), 5)
     for bname in bnames:
-        for at in range(0, min(ref['polls'], 70) + 1):
+        np_ = ref['polls']
+        # every selector poll of A; for very long operations 71 polls spread over the whole of it
+        for at in (range(0, np_ + 1) if np_ <= 70 else sorted(set(int(i * np_ / 70.0) for i in range(71)))):
             run_pair(h, aname, bname, at, res, ref)
             res.obs['injections'] += 1
     if res.sample is None:
@@ -200,7 +249,7 @@ def snapshot(w):
 
 def run_pair(h, aname, bname, at, res, ref=None):
     w = simhist.new_world(h)
-    w.nest = {'n': 0, 'max': 0, 'entered': 0, 'overlaps': [], 'open': []}
+    w.nest = {'n': 0, 'max': 0, 'entered': 0, 'overlaps': [], 'open': [], 'tokens': [], 'work': [], 'orphans': []}
     w.kernel.spawn_fail = set()
     out = {}
     nv = len(res.viol)
@@ -218,6 +267,12 @@ def run_pair(h, aname, bname, at, res, ref=None):
 @gen.coroutine
 def send_A(w, aname):
     cmd, props = A_OPS[aname]
+    if cmd == '__check_long__':
+        # a periodic check that respawns four workers 2.5 s apart
+        for p in w.kernel.live(simhist.tag_of('L')):
+            w.kernel.kill(p, 9, sender='ext')
+        w.loop.add_callback(w.check)
+        return None
     if cmd == '__check__':
         # make the periodic check long: kill a worker of the paced watcher first
         live = w.kernel.live('w_a')
@@ -280,6 +335,9 @@ def _pair(w, h, aname, bname, at, res, ref, out):
     if w.nest['overlaps']:
         res.violation('C10/two-exclusive-in-flight', 'exclusive entry %s entered while %s in flight'
                       % w.nest['overlaps'][0])
+    if w.nest['orphans']:
+        res.violation('C10/exclusive-work-outlives-its-slot', 'exclusive entry %s was accepted while %s, started by an '
+                      'operation that has already ended and freed the slot, was still running' % w.nest['orphans'][0])
     res.obs['exclusive_entries'] += w.nest['entered']
     if bname is None:
         out['ref'] = {'polls': polls, 'snap': snap, 'replyA': replyA, 'probe': probe_status}
@@ -338,13 +396,81 @@ def _diff(a, b):
     return {'ref': ja[max(0, i - 150):i + 150], 'run': jb[max(0, i - 150):i + 150]}
 
 
+def circus_section(spec, res):
+    """the second lock: a reloadconfig that finds the [circus] section edited restarts every watcher under the
+    arbiter's `_restarting` flag; once it is over, state-changing requests and the periodic check must run again"""
+    import os
+    import shutil
+    import tempfile
+    rnd = rng_for(spec['seed'], 'C10-circus', spec['idx'])
+    d = tempfile.mkdtemp(prefix='verif-c10-')
+    path = os.path.join(d, 'circus.ini')
+
+    def render(extra):
+        return ('[circus]\ncheck_delay = -1\nendpoint = ipc:///sim/ctrl\npubsub_endpoint = ipc:///sim/pub\n%s\n'
+                '[watcher:a]\ncmd = w_a\nnumprocesses = 2\ngraceful_timeout = 0.2\n\n'
+                '[watcher:p]\ncmd = w_p\nnumprocesses = 1\ngraceful_timeout = 0.2\n\n' % extra)
+    edits = rnd.sample(['warmup_delay = 1', 'debug = False', 'statsd = False', 'warmup_delay = 0', 'umask = 022'],
+                       rnd.randint(1, 3))
+    open(path, 'w').write(render(''))
+    w = simhist.new_world({})
+    w.nest = {'n': 0, 'max': 0, 'entered': 0, 'overlaps': [], 'open': [], 'tokens': [], 'work': [], 'orphans': []}
+    nv = len(res.viol)
+
+    @gen.coroutine
+    def go():
+        arb = w.load_arbiter(path)
+        yield arb.start()
+        yield w.settle(60)
+        for e in edits:
+            open(path, 'w').write(render(e))
+            rep = yield w.call('reloadconfig', waiting=True)
+            yield w.settle(120)
+            if w.stalled is not None:
+                res.obs['stalled(C05 owns)'] += 1
+                return
+            res.obs['reloadconfig_with_circus_section_edited'] += 1
+            res.hist['reloadconfig_reply_after_circus_edit'][str((rep or {}).get('status'))] += 1
+            pr = yield w.call('incr', name='p', nb=0, waiting=True)
+            res.obs['wedge_probes'] += 1
+            if pr is None or pr.get('status') != 'ok':
+                res.violation('C10/wedged-after:reloadconfig[circus-section-edited]',
+                              'after the reloadconfig that followed the edit %r was over (%s), the probe exclusive '
+                              'request was answered %s; slot=%s restarting=%s'
+                              % (e, str(rep)[:80], str(pr)[:160], w.arb._exclusive_running_command,
+                                 getattr(w.arb, '_restarting', None)))
+                return
+            # the periodic check still does its job: a killed worker is replaced
+            k = w.kernel
+            live = k.live(simhist.tag_of('a'))
+            if live:
+                k.kill(live[0], 9, sender='ext')
+                yield w.advance(0.1)
+                yield w.check()
+                yield w.settle(60)
+                if len(k.live(simhist.tag_of('a'))) != 2:
+                    res.violation('C10/periodic-check-dead-after:reloadconfig[circus-section-edited]',
+                                  'after the edit %r and reloadconfig a killed worker of a is not replaced by the '
+                                  'periodic check (live %s)' % (e, k.live(simhist.tag_of('a'))))
+                    return
+        res.nontrivial(repr(('circus-section', tuple(edits))))
+    try:
+        w.run(go)
+        for v in res.viol[nv:]:
+            v['spec'] = dict(spec)
+    finally:
+        w.close()
+        shutil.rmtree(d, ignore_errors=True)
+    res.sample = {'case': '[circus] section edited, reloadconfig, probe', 'edits': edits}
+
+
 def run_chain(spec, res):
     """random chains A,B,C at random polls with random behaviours; slot-free and nesting oracles"""
     rnd = rng_for(spec['seed'], 'C10-chain', spec['chain'])
     h = base_spec(rnd)
     ops = [(rnd.choice(list(A_OPS)), rnd.randint(0, 25)) for _ in range(rnd.randint(2, 4))]
     w = simhist.new_world(h)
-    w.nest = {'n': 0, 'max': 0, 'entered': 0, 'overlaps': [], 'open': []}
+    w.nest = {'n': 0, 'max': 0, 'entered': 0, 'overlaps': [], 'open': [], 'tokens': [], 'work': [], 'orphans': []}
     nv = len(res.viol)
     try:
         w.run(lambda: _chain(w, h, ops, res))
